@@ -78,6 +78,17 @@ def run(ctx):
         g = refgrammar.Gen(rng, kws, exclude=excl)
         lex, lib = g.library(rng.choice([1, 1, 2]))
         cases.append({'src': 'grammar', 'name': f'g{i}', 'text': refgrammar.spell(lex), 'feats': frozenset(g.features)})
+    # the literal space of C09 (every literal the parser must accept), each as an initial value
+    from . import c09
+    for (ty, lit, exp, kind) in c09.int_cases() + c09.real_cases() + c09.dur_cases() + c09.tod_cases() + c09.date_cases() + c09.str_cases():
+        if exp is None or exp.startswith('ERR'): continue
+        if kind == 'real' and 'real-integral' in excl:
+            try:
+                if float(lit.split('#')[-1].replace('_', '')).is_integer(): continue
+            except (ValueError, OverflowError):
+                continue
+        cases.append({'src': 'literal', 'name': lit, 'text': c09.prog(ty, lit), 'feats': frozenset(['literal:' + kind + ':' + lit])})
+        cases.append({'src': 'literal', 'name': lit, 'text': f'PROGRAM p\nx := {lit};\nEND_PROGRAM\n', 'feats': frozenset(['literal-expr:' + kind + ':' + lit])})
     for name, t in fixtures():
         cases.append({'src': 'fixture', 'name': name, 'text': t, 'feats': frozenset(['fixture:' + name])})
     impl = core.run_lines(core.VH, ['render ' + core.hexs(c['text']) for c in cases], jobs=12)
